@@ -513,6 +513,11 @@ def run_gcp(case):
     # fit residual at the control points bounds the error
     res = max(max(abs(a - b) for a, b in zip(G.pix2wld(x, y), w)) for (x, y), w in zip(pix, wld))
     tol = max(1e-9, 10 * res) if kind == "affine" else max(1e-6, 50 * res)
+    # res is measured on the code under test, so it must not be left to vouch for itself: both truths judged here lie
+    # in the class that is fitted (affine for any count, x*y and x*x for >= 9 points), the least-squares residual at
+    # the control points is zero and pix2wld reproduces them within the R tolerance 1e-9*(|value| + pixel)
+    if res > 1e-9 * (100.0 + 0.25):
+        r.fail(f"gcp:base:control-points:{kind}", f"GCPGeoBox({shape}, {kind}, {npts} pts): pix2wld misses its control points by {res:g}")
     # the inverse is a separate polynomial fit: exact for affine control points, otherwise bounded by a fraction
     # (5%) of the largest non-affine displacement of the control-point model, in pixels (q*10*8 / 0.25)
     tol_inv = 1e-6 if kind == "affine" else 0.05 * (q * 10 * 8 / 0.25)
@@ -579,12 +584,208 @@ def run_gcp(case):
     return r
 
 
+# -- GCP geoboxes: aspect ratio of the control-point clouds ------------------------------------------------------------
+# The raster (= pixel-side control-point cloud) and the world-side cloud are elongated independently: every pixel cloud
+# W x H is combined with every world cloud EX x EY (pixel size EX/W by EY/H, so non-square pixels come with it) whose
+# pixel-size anisotropy stays within GCPX_BOUND, under every orientation of the world axes.
+GCPX_BOUND = 500  # pixel cloud, world cloud and pixel size each at most 500:1
+GCPX_SHORT = 24  # pixels along the short side of the raster
+GCPX_EXTENT = 240.0  # metres along the short side of the world cloud
+GCPX_EPS = 1e-3  # non-affine displacement of the control points, as a fraction of the raster extent along each axis
+GCPX_LAYOUT = {3: None, 4: (2, 2), 6: (2, 3), 9: (3, 3), 12: (3, 4), 15: (5, 3), 16: (4, 4), 24: (4, 6)}  # rows x cols
+GCPX_ORI = {
+    "north-up": Affine.scale(1, -1),
+    "rot30": Affine.rotation(30) * Affine.scale(1, -1),
+    "axes-swapped": Affine(0, 1, 0, 1, 0, 0),
+    "x-mirrored-y-up": Affine.scale(-1, 1),
+    "rot-60-mirrored": Affine.rotation(-60) * Affine.scale(-1, -1),
+    "rot45": Affine.rotation(45) * Affine.scale(1, -1),
+}
+GCPX_CRS = "EPSG:32633"
+
+
+def gcpx_alphabets(tier):
+    ratios = (1, 3, 10, 11, 50, 500) if tier == "quick" else (1, 2, 3, 5, 9, 10, 11, 20, 50, 100, 500)
+    aspects = [(1, 1)] + [(q, 1) for q in ratios[1:]] + [(1, q) for q in ratios[1:]]
+    pix = [(GCPX_SHORT * a, GCPX_SHORT * b) for a, b in aspects] + [(64, 1), (1, 64)]  # (W, H); single row / column
+    npts = (3, 4, 6, 9, 12, 24) if tier == "quick" else tuple(GCPX_LAYOUT)
+    oris = tuple(GCPX_ORI)[:4] if tier == "quick" else tuple(GCPX_ORI)
+    return pix, aspects, npts, oris
+
+
+def gcpx_kinds(npts, tier):
+    # the truth must lie in the class the fit uses for this many points: affine (3), bilinear (4..8), biquadratic (>= 9)
+    if tier == "quick":  # non-affine truths: the smallest and the largest point count of each fit class
+        return ("affine",) + (("bilinear",) if npts in (4, 6, 24) else ()) + (("quadratic",) if npts in (9, 24) else ())
+    return ("affine",) + (("bilinear",) if npts >= 4 else ()) + (("quadratic",) if npts >= 9 else ())
+
+
+def gen_gcp_aspect(tier):
+    pix, aspects, npts_menu, oris = gcpx_alphabets(tier)
+
+    def g():
+        for npts in npts_menu:
+            for kind in gcpx_kinds(npts, tier):
+                for (W, H) in pix:
+                    for (ax, ay) in aspects:
+                        an = (ax / W) / (ay / H)  # pixel size x : pixel size y
+                        if not 1 / GCPX_BOUND * (1 - 1e-9) <= an <= GCPX_BOUND * (1 + 1e-9):
+                            continue
+                        for ori in oris:
+                            yield (kind, npts, (W, H), (ax, ay), ori)
+
+    return g
+
+
+def _aspect_class(a, b):
+    return "compact" if max(a, b) <= 3 * min(a, b) else ("long-in-x" if a > b else "long-in-y")
+
+
+def _ring_distance(pts, ring):
+    """distance of every point (Nx2) to the closed polyline through ring (Kx2), plain numpy"""
+    a = ring
+    b = np.roll(ring, -1, axis=0)
+    ab = b - a
+    ap = pts[:, None, :] - a[None, :, :]
+    ll = (ab * ab).sum(axis=1)
+    t = np.clip((ap * ab[None, :, :]).sum(axis=2) / np.where(ll > 0, ll, 1), 0, 1)
+    d = ap - t[:, :, None] * ab[None, :, :]
+    return np.sqrt((d * d).sum(axis=2)).min(axis=1)
+
+
+def run_gcp_aspect(case):
+    kind, npts, (W, H), (ax, ay), ori = case
+    EX, EY = GCPX_EXTENT * ax, GCPX_EXTENT * ay
+    A = Affine.translation(500010.0, 6000020.0) * GCPX_ORI[ori] * Affine.scale(EX / W, EY / H)
+    sc = pix_scale(A)
+    eps = 0.0 if kind == "affine" else GCPX_EPS
+
+    def truth(x, y):
+        u, v = x / W, y / H
+        if kind == "quadratic":
+            return A * (x + eps * W * u * v, y + eps * H * (u * u - v * v))
+        return A * (x + eps * W * u * v, y - eps * H * u * v)
+
+    lay = GCPX_LAYOUT[npts]
+    if lay is None:
+        pix = [(0.0, 0.0), (float(W), 0.0), (0.0, float(H))]
+    else:
+        pix = [(float(x), float(y)) for y in np.linspace(0, H, lay[0]) for x in np.linspace(0, W, lay[1])]
+    wld = [truth(x, y) for x, y in pix]
+    pcls, wcls = _aspect_class(W, H), _aspect_class(ax, ay)
+    cls = f"{kind}:pix-{pcls}:wld-{wcls}"
+    r = R(outcome=f"gcpx:{kind}:{npts}:pix-{pcls}:wld-{wcls}:{ori}")
+    G = GCPGeoBox((H, W), GCPMapping(np.asarray(pix), np.asarray(wld), GCPX_CRS))
+    what = f"GCPGeoBox({(H, W)}, {npts} control points {kind}, world cloud {EX:g} x {EY:g} m, {ori})"
+    axis_parallel = all(v == 0 for v in (A.b, A.d)) or all(v == 0 for v in (A.a, A.e))
+    # wld2pix in ORIGINAL pixels: the R tolerance 1e-6 px, relative 1e-9 of the raster size for long rasters.  Non-affine
+    # control points: the inverse of a polynomial is not a polynomial, the separate world->pixel fit is held to 5% of the
+    # largest non-affine displacement along each axis (as in the gcp slice), inside the control-point hull, for world
+    # grids parallel to the axes (a polynomial in the world axes has no such bound on a rotated long thin cloud)
+    tol_aff = max(1e-6, 1e-9 * max(W, H))
+    if not axis_parallel and max(ax, ay) > 50 * min(ax, ay):
+        # world cloud beyond 50:1 AND turned against the world axes: the world->pixel fit (monomials in the world axes)
+        # is conditioned ~1e10 and its rounding error grows with aspect^2.3, 4.5e-7 px at 500:1 against <= 7e-9 px
+        # everywhere else in this slice; held to 1e-4 px there so that the verdict does not hang on a factor 2
+        tol_aff *= 100
+    tol_inv = (tol_aff, tol_aff) if kind == "affine" else (0.05 * eps * W, 0.05 * eps * H)
+
+    def wclose(g_, e_):
+        return all(abs(a - b) <= 1e-9 * (abs(b) + sc) for a, b in zip(g_, e_))
+
+    def check(g, M, label, extra=()):
+        key = f"gcp-aspect:{label}"
+        for p in tuple(probe_points(tuple(g.shape))) + tuple(extra):
+            ox_, oy_ = M * p
+            inside = 0 <= ox_ <= W and 0 <= oy_ <= H
+            if not (-0.25 * W <= ox_ <= 1.25 * W and -0.25 * H <= oy_ <= 1.25 * H):
+                # more than a quarter of the cloud outside the control points: a polynomial fit extrapolates (the rounding
+                # residue of the higher-order coefficients too, 16 raster heights away on a padded 1 x N strip): no claim
+                continue
+            got = g.pix2wld(*p)
+            want = truth(ox_, oy_)
+            if not wclose(got, want):
+                r.fail(f"{key}:location:{cls}", f"{what} {label}: pixel {p} at {tuple(got)}, control points say {want}")
+                return
+            if kind != "affine" and not (inside and axis_parallel):
+                continue
+            bx, by = g.wld2pix(*got)
+            ex_, ey_ = M * (bx, by)  # back in original pixels
+            if abs(ex_ - ox_) > tol_inv[0] or abs(ey_ - oy_) > tol_inv[1]:
+                r.fail(f"{key}:inverse:{cls}", f"{what} {label}: wld2pix(pix2wld({p})) = {(bx, by)}, "
+                       f"{(ex_ - ox_, ey_ - oy_)} original pixels off (tolerance {tol_inv})")
+                return
+        if g.crs != CRS(GCPX_CRS):
+            r.fail(f"{key}:crs", what)
+        if kind != "affine":
+            return
+        h, w = g.shape
+        # resolution of this view: its pixel -> world map is the affine A*M
+        V = A * M
+        bx_ = math.hypot(V.a, V.d)
+        area = abs(V.a * V.e - V.b * V.d)
+        res = g.resolution
+        # a pixel size is a difference of world coordinates (each good to the R tolerance) divided by the pixel count
+        # of the raster: relative 1e-6, or twice the world tolerance over the extent of the cloud along that pixel axis
+        cmax = max(abs(A.c), abs(A.f)) + sc
+        rtx, rty = max(1e-6, 2e-9 * cmax / EX), max(1e-6, 2e-9 * cmax / EY)
+        if abs(abs(res.x) - bx_) > rtx * bx_ or abs(abs(res.y) - area / bx_) > rty * area / bx_:
+            r.fail(f"gcp-aspect:{'base' if label == 'base' else 'derived-view'}:resolution:{cls}",
+                   f"{what} {label}: resolution {res}, the control points say ({bx_:.9g}, {area / bx_:.9g})")
+        if label not in ("base", "crop", "zoom_out2-then-crop"):
+            return
+        # footprint: the image of the pixel rectangle (here a parallelogram; vertices along the edges are welcome)
+        corners = np.asarray([V * q for q in ((0, 0), (w, 0), (w, h), (0, h))])
+        o = corners[0]
+        ext = g.extent
+        ring = np.asarray(ext.exterior.coords)[:-1, :2] if ext.geom.geom_type == "Polygon" else None
+        tolw = 2e-9 * (float(np.abs(corners).max()) + sc)
+        ok = ring is not None and len(ring) >= 4
+        if ok:
+            xs, ys = (ring - o).T
+            got_area = 0.5 * abs(float((xs * np.roll(ys, -1) - np.roll(xs, -1) * ys).sum()))
+            ok = float(_ring_distance(ring - o, corners - o).max()) <= tolw and \
+                float(_ring_distance(corners - o, ring - o).max()) <= tolw and abs(got_area - area * w * h) <= 1e-6 * area * w * h
+        if not ok or ext.crs != g.crs:
+            r.fail(f"gcp-aspect:{'base' if label == 'base' else 'derived-view'}:extent:{cls}",
+                   f"{what} {label}: footprint {None if ring is None else ring[:4].tolist()}... is not the image of the pixel "
+                   f"rectangle {corners.tolist()}")
+
+    Id = Affine.identity()
+    check(G, Id, "base", extra=pix + [(W / 3, H / 7), (0.5, 0.5)])
+    cy0, cx0 = H // 4, (1 if W >= 2 else 0)
+    views = [
+        ("crop", lambda g: g[cy0:max(cy0 + 1, H - 1), cx0:max(cx0 + 1, W // 2 + 1)], Affine.translation(cx0, cy0)),
+        ("croplast", lambda g: g[-1:, :], Affine.translation(0, H - 1)),
+        ("pad21", lambda g: g.pad(2, 1), Affine.translation(-2, -1)),
+        ("zoom_out2", lambda g: g.zoom_out(2), Affine.scale(2)),
+        ("zoom_out.5", lambda g: g.zoom_out(0.5), Affine.scale(0.5)),
+        ("zoom_to45", lambda g: g.zoom_to((4, 5)), Affine.scale(W / 5, H / 4)),
+        ("pad_wh16", lambda g: g.pad_wh(16), Id),
+        ("center_pixel", lambda g: g.center_pixel, Affine.translation(W // 2, H // 2)),
+    ]
+    n = 0
+    for name, fn, M in views:
+        g2 = fn(G)
+        check(g2, M, name)
+        n += 1
+        if name == "zoom_out2":  # a non-initial state: crop the last row and the right half of the zoomed view
+            h2, w2 = g2.shape
+            check(g2[-1:, w2 // 2:], M * Affine.translation(w2 // 2, h2 - 1), "zoom_out2-then-crop")
+            n += 1
+    r.counts = dict(op_applications=n)
+    return r
+
+
 def slices(tier):
     _TIER[0] = tier
     return [
         e1.Slice("ops", gen_ops(tier), run_ops, "every base GeoBox x every operation with its parameter menu + view relations"),
         e1.Slice("chains", gen_chains(tier), run_chains, "E2: BFS chains of operations from 18 start GeoBoxes", shards=18),
         e1.Slice("gcp", gen_gcp(tier), run_gcp, "GCP GeoBoxes: exact (affine) and quadratic control points through crop/pad/zoom"),
+        e1.Slice("gcp-aspect", gen_gcp_aspect(tier), run_gcp_aspect,
+                 "GCP GeoBoxes: aspect ratio of the pixel-side and of the world-side control-point cloud (1:1 .. 500:1, both ways, "
+                 "independently) x orientation x number of control points x affine/bilinear/quadratic truth, base + derived views"),
     ]
 
 
@@ -592,15 +793,29 @@ def main(ctx):
     ctx.rule = (
         "ops: complete product base GeoBox (13 affines x 19 shapes x CRS) x operation menu (all slice pairs with indices in "
         "[-n,n], all int indices, pad/zoom/rotate/... parameter menus); chains: BFS over 20 operations from 18 start boxes, "
-        "dedup on (shape, affine); non-trivial = every case; evaluations count cases, op_applications counts operation calls"
+        "dedup on (shape, affine); gcp-aspect: complete product control-point count x truth class the fit can represent "
+        "(affine / bilinear / quadratic) x pixel-side cloud W x H x world-side cloud aspect x orientation of the world axes, "
+        "kept where the pixel-size anisotropy is within the bound, each through 9 derived views; "
+        "non-trivial = every case; evaluations count cases, op_applications counts operation calls"
     )
+    gx_pix, gx_asp, gx_n, gx_ori = gcpx_alphabets(ctx.tier)
     ctx.bounds = dict(shapes=SHAPES, affines_dyadic=list(AFF_D), affines_realistic=list(AFF_R), crs=CRSS,
-                      chain_depth=2 if ctx.tier == "quick" else 3, chain_ops=[str(o) for o in CHAIN_OPS])
+                      chain_depth=2 if ctx.tier == "quick" else 3, chain_ops=[str(o) for o in CHAIN_OPS],
+                      gcp_aspect=dict(pixel_clouds_WxH=gx_pix, world_cloud_aspects=gx_asp, control_points=gx_n, orientations=gx_ori,
+                                      kinds={n: gcpx_kinds(n, ctx.tier) for n in gx_n}, max_ratio=GCPX_BOUND,
+                                      nonaffine_displacement=GCPX_EPS))
     ctx.assumptions = [
         "dyadic affines: exact ==; realistic affines, rotations by non-multiples of 90 deg, zoom_to and chained states: "
         "tolerance 1e-9*(|coordinate| + pixel size)",
         "rotated/sheared resolution contract: |first column| and pixel area / |first column| (the scale part of rotation*shear*scale)",
         "buffered(): documented rounding ceil((buffer - 0.1 px)/px) whole pixels per side",
+        "gcp-aspect: pixel cloud, world cloud and pixel size each within 500:1; probes up to a quarter of the cloud outside the "
+        "control points; pix2wld: 1e-9*(|coordinate| + pixel size) for every truth (all lie in the fitted class); wld2pix in original "
+        "pixels: max(1e-6, 1e-9*raster size) for affine control points (x100 for world clouds beyond 50:1 that are turned against "
+        "the world axes: conditioning of the fit), 5% of the non-affine displacement for bilinear/quadratic control points inside "
+        "the hull on axis-parallel world grids (no bound is claimed for the world->pixel polynomial on rotated thin clouds: with "
+        "4 control points 0.1% off affine on a 30 deg, 500:1 strip it is thousands of pixels off between the points)",
+        "gcp-aspect resolution: relative 1e-6 or twice the world tolerance over the extent of the cloud along that pixel axis",
     ]
     sl = slices(ctx.tier)
     if ctx.only:
